@@ -520,7 +520,7 @@ func runC06(c *Ctx) {
 						goto wrapRule
 					}
 					recvN := fa0.X
-					want := linSym("len(" + accessPath(recvN) + "." + r.data + ")").add(linSym(accessPath(recvN)+"."+field), -1).add(linSym("len("+accessPath(origin(cp.Call.Args[1]))+")"), -1)
+					want := linSym("len("+accessPath(recvN)+"."+r.data+")").add(linSym(accessPath(recvN)+"."+field), -1).add(linSym("len("+accessPath(origin(cp.Call.Args[1]))+")"), -1)
 					inside := hasFact(in, func(ft fact) bool {
 						a, pol, ok := atomOf(ft.Cond, ft.Val, nil)
 						return ok && pol && !a.Eq && a.Form.eq(want)
